@@ -206,7 +206,7 @@ def run_native(exe, inputs=None, seed=None, d=None, timeout=20):
 
 def sig(out):
     """the part of a native run's output that is compared between builds (stderr logging of the real code is not)"""
-    return [l for l in out.splitlines() if l.startswith(('OBS ', 'CHECK-FAILED', 'ASSUME-FAILED'))]
+    return [re.sub(r'^(CHECK-FAILED|ASSUME-FAILED) line \d+', r'\1', l) for l in out.splitlines() if l.startswith(('OBS ', 'CHECK-FAILED', 'ASSUME-FAILED'))]
 
 def validate(run, ob, v, d):
     """translation validation: same harness, same concrete vectors, generated C vs g++ build of the real code"""
@@ -231,6 +231,8 @@ def validate(run, ob, v, d):
             res['compared'] += 1
         if rc1 == 1:
             res.setdefault('native_check_failures', []).append(dict(seed=seed, out=out1[-400:]))
+        if rl and rc2 not in (0, 77):
+            res.setdefault('real_failures', []).append(dict(seed=seed, rc=rc2, out=out2[-1500:]))
     return res
 
 def run_query(run, ob, v, prep, witness, extra=()):
@@ -280,6 +282,13 @@ def process(run, ob, v, findings):
             rec['status'] = 'inconclusive'; rec['notes'].append(val['error']); return rec
         if val['disagreements']:
             rec['status'] = 'inconclusive'; rec['notes'].append('translation validation: generated C and real code disagree: ' + json.dumps(val['disagreements'][:2])); return rec
+        if val.get('real_failures'):
+            # the real code (g++/ASan build) fails the harness oracle on a concrete random vector: that IS a reproduced violation
+            rf = val['real_failures'][0]
+            rec['status'] = 'counterexample'; rec['dir'] = d
+            rec['counterexample'] = dict(inputs=None, seed=rf['seed'], failures=['native run of the real code on random vector seed=%d: ' % rf['seed'] + sig(rf['out'])[-1] if sig(rf['out']) else 'sanitizer report'])
+            rec['notes'].append('found by the differential native run before any solver query')
+            return rec
         if val.get('native_check_failures'):
             rec['notes'].append('native run of the harness failed a CHECK on a random vector: ' + json.dumps(val['native_check_failures'][:1]))
             rec['native_failure_seed'] = val['native_check_failures'][0]['seed']
@@ -319,12 +328,12 @@ def process(run, ob, v, findings):
 def replay(run, ob, rec):
     """feed the counterexample to the real code; returns (reproduced, text)"""
     d = rec['dir']; v = rec['variant']
-    inputs = rec['counterexample']['inputs']
+    inputs = rec['counterexample']['inputs']; seed = rec['counterexample'].get('seed')
     if not ob.real:
         return None, 'obligation has no real-code replay (abstraction not linkable)'
     exe, o = native_build(run, ob, v, d, real=True)
     if not exe: return None, 'replay build failed: ' + o[-1500:]
-    rc, out = run_native(exe, inputs=inputs, d=d, timeout=60)
+    rc, out = run_native(exe, inputs=inputs, d=d, timeout=60) if inputs is not None else run_native(exe, seed=seed, timeout=60)
     if rc == 0: return False, out[-1500:]
     if rc == 77: return None, 'replay: counterexample inputs violate a harness assumption natively: ' + out[-500:]
     return True, f'exit={rc}\n' + out[-3000:]
@@ -351,7 +360,7 @@ def main():
             cand = [o for o in mod.OBLIGATIONS if o.name == rec['obligation']]
             if not cand: print('unknown obligation', rec['obligation']); sys.exit(2)
             o = cand[0]; prep = prepare(run, o, rec['variant'])
-            r = dict(dir=prep['dir'], variant=rec['variant'], counterexample=dict(inputs=rec['inputs']))
+            r = dict(dir=prep['dir'], variant=rec['variant'], counterexample=dict(inputs=rec['inputs'], seed=rec.get('seed')))
             ok, text = replay(run, o, r)
             print(text)
             if ok: print(f"VIOLATION property={a.prop} replay={a.replay}"); rc = 1
@@ -415,7 +424,7 @@ def main():
             if ok:
                 os.makedirs(replays_dir, exist_ok=True)
                 path = os.path.join(replays_dir, f"{o.name}.{variant_tag(r['variant'])}.json")
-                json.dump(dict(property=a.prop, obligation=o.name, variant=r['variant'], inputs=r['counterexample']['inputs'],
+                json.dump(dict(property=a.prop, obligation=o.name, variant=r['variant'], inputs=r['counterexample']['inputs'], seed=r['counterexample'].get('seed'),
                                cbmc_failures=r['counterexample']['failures'], real_code_output=text[-3000:], harness=o.harness,
                                how='nd_* inputs in order; replayed by the same harness compiled natively (-DNATIVE -DREAL) and linked against g++ -fsanitize=address,undefined build of /repo/src'),
                           open(path, 'w'), indent=1)
